@@ -61,9 +61,12 @@ CaseOf(p) ==
 \* ---- project universes ----------------------------------------------------------------------
 Slots(units) == { [unit |-> u, where |-> w, loc |-> x] : u \in (IF units = 0 THEN {1} ELSE 1..units), w \in Wheres, x \in {"en", "fr"} }
 Singles(units) == { [units |-> units, uses |-> {Use(s.unit, s.where, s.loc, f)}] : s \in Slots(units), f \in Feats }
-Pairs(units, S) ==
+PairsOver(units, S, F) ==
     { [units |-> units, uses |-> {Use(s1.unit, s1.where, s1.loc, f1), Use(s2.unit, s2.where, s2.loc, f2)}]
-      : s1 \in S, s2 \in S, f1 \in Feats, f2 \in Feats }
+      : s1 \in S, s2 \in S, f1 \in F, f2 \in F }
+Pairs(units, S) == PairsOver(units, S, Feats)
+\* the quick tier pairs the base features and two composite ones (every feature still occurs in the singles)
+QuickPairFeats == BaseFeats \cup {"bare", "plural_number"}
 NoUse == { [units |-> 0, uses |-> {}], [units |-> 2, uses |-> {}] }
 \* a plural and a range may not share the count variable of one key: two uses on the same slot key in
 \* different locales are fine for formatters and plurals (kinds mix), so pairs are unrestricted
@@ -75,9 +78,14 @@ WellFormed(p) ==
 \* variable across locales)
 CrossBare == { [units |-> u, uses |-> {Use(1, w, "en", "bare"), Use(1, w, "fr", f)}] : u \in {0, 2}, w \in Wheres, f \in BaseFeats \ {"plural"} }
 QuickProjects == { p \in NoUse \cup CrossBare \cup Singles(0) \cup Singles(2)
-                        \cup Pairs(2, { s \in Slots(2) : s.loc = "fr" /\ s.where # "g.s" }) : WellFormed(p) }
+                        \cup PairsOver(2, { s \in Slots(2) : s.loc = "fr" /\ s.where # "g.s" }, QuickPairFeats) : WellFormed(p) }
 ThoroughProjects == { p \in NoUse \cup CrossBare \cup Singles(0) \cup Singles(2) \cup Pairs(0, Slots(0)) \cup Pairs(2, Slots(2)) : WellFormed(p) }
 
 EmitCases == (frames = { <<u, "">> : u \in UnitsOf(proj) } /\ used = {}) => PrintT(<<"CASE", ToJson(CaseOf(proj))>>)
-MCSpec == Init /\ [][Next]_vars /\ WF_vars(Next)
+\* (the project set is named by a real constant, not substituted for `Projects` in the configuration: TLC re-evaluates a
+\* substituted definition at every reference - once per initial state - while it evaluates a constant-level definition once)
+CONSTANT Tier
+MCProjects == IF Tier = "quick" THEN QuickProjects ELSE ThoroughProjects
+MCInit == proj \in MCProjects /\ frames = { <<u, "">> : u \in UnitsOf(proj) } /\ used = {}
+MCSpec == MCInit /\ [][Next]_vars /\ WF_vars(Next)
 =============================================================================
